@@ -18,7 +18,7 @@
    absolute position followed by a parse, so no cursor is modelled. *)
 From Coq Require Import String.
 From PV Require Import Base.Bytes Base.Outcome Base.Prim Base.Fmt Base.Enum Base.PyData.
-From PV Require Import Gen.ElfLayouts Gen.Tables Spec.C01Obs.
+From PV Require Import Gen.ElfLayouts Gen.Tables Gen.PyFuns Spec.C01Obs.
 Open Scope string_scope.
 Open Scope Z_scope.
 
@@ -132,16 +132,15 @@ Definition Chdr (c : efcore) : layout := gen_Elf_Chdr (c_le c) (c_is64 c).
 Definition chdr_binds (c : efcore) : binds := pick (c_is64 c) gen_binds_Elf_Chdr_32 gen_binds_Elf_Chdr_64.
 Definition stream_len (c : efcore) : Z := zlen (c_img c).
 
-(* ---- _section_offset / _segment_offset *)
+(* ---- _section_offset / _segment_offset: the bodies are TRANSLATED from the live source
+        (Gen/PyFuns.v gen_section_offset / gen_segment_offset, regenerated on every run);
+        here only the arguments self['e_shentsize'], self['e_shoff'], structs.Elf_Shdr.sizeof(), n
+        are supplied *)
 Definition section_offset (c : efcore) (n : Z) : res Z :=
-  let shentsize := hz (c_hdr c) "e_shentsize" in
-  if (0 <? hz (c_hdr c) "e_shoff") && (shentsize <? sizeof (Shdr c)) then Err EElf
-  else Ok (hz (c_hdr c) "e_shoff" + n * shentsize).
+  gen_section_offset (hz (c_hdr c) "e_shentsize") (hz (c_hdr c) "e_shoff") (sizeof (Shdr c)) n.
 
 Definition segment_offset (c : efcore) (n : Z) : res Z :=
-  let phentsize := hz (c_hdr c) "e_phentsize" in
-  if (0 <? hz (c_hdr c) "e_phoff") && (phentsize <? sizeof (Phdr c)) then Err EElf
-  else Ok (hz (c_hdr c) "e_phoff" + n * phentsize).
+  gen_segment_offset (hz (c_hdr c) "e_phentsize") (hz (c_hdr c) "e_phoff") (sizeof (Phdr c)) n.
 
 (* ---- _get_section_header: None when the offset is beyond the stream *)
 Definition get_section_header (c : efcore) (n : Z) : res (option hrec) :=
@@ -371,7 +370,8 @@ Definition iter_sections (ef : elffile) (type : option hval) : res (list sect) :
 (* ---- num_segments *)
 Definition num_segments (ef : elffile) : res Z :=
   let c := ef_core ef in
-  if hz (c_hdr c) "e_phnum" <? 65535 then Ok (hz (c_hdr c) "e_phnum")
+  if hz (c_hdr c) "e_phoff" =? 0 then Ok 0          (* no program header table *)
+  else if hz (c_hdr c) "e_phnum" <? 65535 then Ok (hz (c_hdr c) "e_phnum")
   else do s <- get_section ef 0; Ok (hz (s_hdr s) "sh_info").
 
 (* a Segment object: header and type(segment).__name__ *)
